@@ -792,6 +792,10 @@ func c11KeyInputs(w *World, r *Report, sites []*cachingSite) {
 				if isCtxLike(w, a.Type()) {
 					continue
 				}
+				// the cache handle itself is not an input of the cached computation
+				if ct := w.Named("internal/cache", "Cache"); ct != nil && types.Identical(a.Type(), ct) {
+					continue
+				}
 				av, isInstr := a.(ssa.Instruction)
 				if !isInstr {
 					continue
